@@ -98,6 +98,22 @@ pub fn run(ctx: &Ctx) -> Report {
 				all.push(t);
 			}
 		}
+		// every short shape (PATH(3) over the structural alphabet) continued beyond the inline
+		// buffers: a 600-byte tail, and a 20-segment tail
+		let long_tail: Vec<u8> = std::iter::repeat(b'L').take(600).collect();
+		let seg_tail: Vec<u8> = vec!["t"; 20].join("/").into_bytes();
+		for p in domains::paths(&domains::seg_alphabet(f, 0), 3) {
+			for tail in [&long_tail, &seg_tail] {
+				let mut t = p.clone();
+				if !t.is_empty() && !t.ends_with(b"/") {
+					t.push(b'/');
+				}
+				t.extend_from_slice(tail);
+				if ref_valid(&d, f, Kind::Path, &t) && seen.insert((f, t.clone())) {
+					all.push(t);
+				}
+			}
+		}
 		let shards = 64usize;
 		let r = run_shards(ctx, shards, |si| {
 			let mut r = Report::new();
